@@ -31,6 +31,9 @@ RowHist == Is("RowHist") /\ fails' = RowHistFails /\ l' = l + 1
 (* C13: a transportation problem solved by the real TransportationProblem *)
 TransportFails ==
     LET cap == Ev.cap dem == Ev.dem cost == Ev.cost a == Ev.alloc IN
+    \* quantities were multiplied by 2^qscale and are logged in that unit; a plan that is not a whole number of units cannot
+    \* be judged with 32-bit integers: no verdict (none of the solver's plans is like that)
+    IF ~Ev.units THEN {F("note", <<"plan not in whole units of 2^qscale", Ev.qscale>>, "t-not-in-units")} ELSE
     (IF TFeasible(cap, dem, a) THEN {} ELSE {F("C13", <<"plan infeasible">>, "t-feasible")}) \cup
     (IF TFeasible(cap, dem, a) /\ ~CertOK(cap, dem, cost, a, Ev.pot) THEN {F("C13", <<"plan not of minimum cost">>, "t-optimal")} ELSE {}) \cup
     (IF AssignOK(a, Ev.assign) THEN {} ELSE {F("C13", <<"assignment is not an arg-max of the allocations">>, "t-assign")})
